@@ -102,6 +102,9 @@ RULES = [
     {"config": {"style": "att"}, "pattern": [{"mov": ["&x"]}, {"add": ["&x", "&y"]}, "&i", "&i"]},
     {"macros": [{"name": "@m", "pattern": [{"$or": ["mov", "add"]}]}, {"name": "@z", "args": ["p"], "pattern": [{"xor": ["p", "p"]}]}], "pattern": ["@m", {"@z": None, "p": "rax"}, {"@z": None, "p": "rbx"}]},
     {"pattern": [{"mov": ["&genreg.64"]}, {"add": ["&genreg.32"]}, {"$not": ["ret"], "times": {"min": 0, "max": 2}}]},
+    # a second sections rule and a second range rule: DIFFERENT values of an option an earlier rule also set
+    {"config": {"sections": [".init"]}, "pattern": ["mov"]},
+    {"config": {"valid_addr_range": {"min": "0x100", "max": "0x200"}}, "pattern": [{"call": ["valid_addr"]}]},
 ]
 
 N_CH_RULES = len(RULES)   # the CrossHair rule steps use the rules above; the histories below use these and more
@@ -129,6 +132,9 @@ import jasm.jasm_regex.yaml2regex as _y
 from jasm.jasm_regex.yaml2regex import Yaml2Regex
 from jasm.match import MasterOfPuppets
 from jasm.stringify_asm.implementations.gnu_objdump.gnu_objdump_disassembler import GNUObjdumpDisassembler
+from jasm.consumer import CompleteConsumer
+from jasm.matched_observers import MatchedObserver
+from jasm.global_definitions import Instruction, MatchingSearchMode
 import copy as _copy
 RULES = %r
 gd.ValidAddrRange = _real_VAR
@@ -158,7 +164,15 @@ def _operation(k):
     obs = [type(o).__name__ for o in mop.prepare_observers()]
     r = JASMConfig().get_info("valid_addr_range")
     flags = list(GNUObjdumpDisassembler(JASMConfig().get_info("assembly_style")).flags)
-    return (rgx, obs, None if r is None else (r.min.hex, r.max.hex), flags)
+    # what the observers of THIS operation do to two direct calls (one target inside rule 4's range only, one inside rule 9's)
+    cons = CompleteConsumer("r", MatchedObserver(), MatchingSearchMode.first_find, False)
+    for o in mop.prepare_observers():
+        cons.add_observer(o)
+    seen = []
+    for tgt in ("20", "0x150"):
+        g = cons._process_instruction(Instruction("1", "call", [tgt]))
+        seen.append(None if g is None else list(g.operands))
+    return (rgx, obs, None if r is None else (r.min.hex, r.max.hex), flags, seen)
 ''' % (RULES[:N_CH_RULES],)
 
 
@@ -174,6 +188,43 @@ def rule_step(k):
     JASMConfig()
     return got == _operation({k})
 '''
+
+
+def rule_after(k):
+    """state OUTSIDE the singleton (class attributes, caches, default arguments): one arbitrary earlier complete operation of
+    the library, then the operation under test, compared with the same operation on a fresh singleton"""
+    earlier = "".join(f"    {'if' if j == 0 else 'elif'} other == {j}:\n        _operation({j})\n" for j in range(N_CH_RULES))
+    return f'''def rule_after_{k}(other: int, twice: bool) -> bool:
+    """
+    pre: 0 <= other < {N_CH_RULES}
+    post: _
+    """
+    JASMConfig._instance = None
+    JASMConfig()
+{earlier}    if twice:
+        _operation({k})
+    got = _operation({k})
+    # FRESH[k] was computed by running this operation FIRST in a fresh interpreter (see fresh_values): an in-process
+    # "fresh singleton" would share whatever the earlier operation left outside the singleton
+    return got == FRESH[{k}]
+'''
+
+
+def fresh_values():
+    """_operation(k) for every library rule, each evaluated first in its own fresh interpreter -> source text of FRESH"""
+    import concurrent.futures as cf
+
+    def one(k):
+        code = ch.PRELUDE + PRE_RULES + f"\nJASMConfig._instance = None\nJASMConfig()\nprint('FRESH-VALUE', repr(_operation({k})))\n"
+        p = subprocess.run([ch.PY, "-c", code], capture_output=True, text=True, timeout=120)
+        for line in p.stdout.splitlines():
+            if line.startswith("FRESH-VALUE "):
+                return line[len("FRESH-VALUE "):]
+        raise RuntimeError(f"fresh value of rule {k}: {p.stderr[-400:]}")
+
+    with cf.ThreadPoolExecutor(8) as ex:
+        vals = list(ex.map(one, range(N_CH_RULES)))
+    return "\nFRESH = [" + ", ".join(vals) + "]\n"
 
 
 SIG = "st_mf: bool, st_of: bool, st_style_intel: bool, st_range: bool, st_lo: int, st_hi: int, st_nsec: int"
@@ -229,8 +280,11 @@ def harnesses(t):
     f.load_config(cfg)
     return got == _state(f)
 ''', timeout=T, prelude=PRE, key="load_config_step", note="arbitrary singleton pre-state x every subset of config keys"))
+    fresh_src = fresh_values()
     for k in range(N_CH_RULES):
         hs.append(ch.H(f"c14/rule_step/{k}", rule_step(k), timeout=T, prelude=PRE_RULES, key="rule_step", note=f"rule {k}: regex, observers, range, objdump flags from an arbitrary pre-state == fresh"))
+        hs.append(ch.H(f"c14/rule_after/{k}", rule_after(k), timeout=T, prelude=PRE_RULES + fresh_src, key="rule_after", note=f"rule {k} after an arbitrary earlier library operation (symbolic choice), optionally repeated == fresh",
+                       probe=[f"rule_after_{k}({j}, False)" for j in range(N_CH_RULES)]))
     return hs
 
 
